@@ -232,6 +232,11 @@ def stimulus_sweep(ctx, rounds=1):
                         hw = py4hw.HWSystem(); r = hw.wire('r', w); q = hw.wire('q', w); c = hw.wire('c', w)
                         py4hw.Sequence(hw, 'seq', vals, r, once); py4hw.Reg(hw, 'reg', r, q)
                         py4hw.Constant(hw, 'k', vals[0], c)
+                        # a bidirectional net written by TWO clocked sources in one cycle and read back through a BidirBuf
+                        pad = hw.bidir_wire('pad', w); rb = hw.wire('rb', w); pin = hw.wire('pin', w); oe = hw.wire('oe', 1)
+                        py4hw.Sequence(hw, 'seqb1', [v + 1 for v in vals], pad, once); py4hw.Sequence(hw, 'seqb2', vals[::-1], pad, once)
+                        try: py4hw.BidirBuf(hw, 'bb', pin, rb, oe, pad)
+                        except Exception: pass
                     where, bad = 'construction', out_of_range(hw)
                     if not bad:
                         with quiet(): sim = hw.getSimulator()
